@@ -13,6 +13,20 @@ replay: each terminal state -> doctest text (statement shapes one-line /
         argv flags under the harness's control) -> real DocTest.run; executed
         statements, skipped parts, verdict, logged stdout and the final
         persistent RuntimeState must equal the prediction.
+below : specs/Directive.tla (harness/dirlib.py) - from the text of a directive
+        comment to the directives and their effect: the token scan of
+        _split_opstr with its paren stack and the string surgery of
+        parse_directive_optstr (operational) against the documented option
+        syntax (declarative; SplitIsDecl) over signs, case, inner blanks,
+        unknown names, comma / comma-blank / blank separators, one- and
+        two-argument REQUIRES; recognition of the comment (11 prefixes x own
+        line / trailing / continuation line / inside a string literal); all 28
+        condition spellings of REQUIRES (flag, module, env truthy / == / !=,
+        platform, os, implementation, python major; malformed ones) against
+        the documented meaning (ConditionsAreDecl); effect on the state.
+        Every case is replayed through Directive.extract and through a doctest
+        whose first statement stands under the comment and whose second
+        follows it.
 """
 from . import common, runlib
 
@@ -40,11 +54,13 @@ def run(tier):
     for dev in ('OverlayLeaks', 'InlineToGlobal', 'InlineSetOnEmptyOverlay'):
         runlib.deviation_must_fail(out, 'C04_Parts', 2, dev, opts='C04_Opts')
     out.assumptions = ['unmet/met conditions are env:, module: and command-line-flag requirements controlled by the harness',
-                       'directive-looking text inside string literals: see the C01/C13 parser checks']
+                       'directive-looking text inside string literals: Directive.tla placements (here) and the C01/C13 parser checks']
     # random longer programs (5..8 parts) from TLC's simulation mode over the same specification
     runlib.simulate_replay(out, 'C04_Parts' + ' 5..8 parts', 'C04_Parts', 5, 8, 800 if tier == 'quick' else 15000, opts='C04_Opts')
-    from . import tracelib
+    from . import tracelib, dirlib
     tracelib.traced_replay(out, 'C04_Parts<=2', 'C04_Parts', 2, opts='C04_Opts')
+    # the layer below the scoping rules: from the text of a directive comment to the directives and their effect (Directive.tla)
+    dirlib.directive_phase(out, tier)
     return out.finish()
 
 
